@@ -155,6 +155,12 @@ class Prop:
                 alts = [a for a in alts if a[0] not in [f for f, _ in thin] or id(a) in keep]
             for i in range(0, len(alts), CHUNK):
                 yield dict(kind="alts", univ=g["univ"], setup=g["setup"], alts=alts[i:i + CHUNK], label=g["label"])
+        for g in mut_c03.gen_after_promote():
+            for i in range(0, len(g["alts"]), CHUNK):
+                yield dict(kind="alts", univ=g["univ"], setup=g["setup"], alts=g["alts"][i:i + CHUNK], label=g["label"])
+        for g in mut_c03.gen_after_failed_batch():
+            for i in range(0, len(g["alts"]), CHUNK):
+                yield dict(kind="alts", univ=g["univ"], setup=g["setup"], alts=g["alts"][i:i + CHUNK], label=g["label"])
         for g in mut.gen_addtree(typed=(False,) if quick else (False, True)):
             yield dict(kind="alts", univ=g["univ"], setup=g["setup"], alts=g["alts"], label=g["label"])
         if not quick:
@@ -182,7 +188,7 @@ class Prop:
                         for k, (p, d) in enumerate(nodes) if k != i]
                 yield dict(kind="load", nodes=rest)
             return
-        for h in mut.shrink_candidates(dict(univ=desc["univ"], ops=desc["ops"])):
+        for h in mut_ex.safe_shrink_candidates(dict(univ=desc["univ"], ops=desc["ops"])):
             yield dict(kind="hist", univ=h["univ"], ops=h["ops"])
 
     ORACLES = ("sibling",)
